@@ -6,33 +6,30 @@ From CBGen Require Import Gen_leaf.
 Ltac Zify.zify_post_hook ::= Z.div_mod_to_equations.
 Local Open Scope Z_scope.
 (* ---- memory_utils.c ---- *)
-(* the loop of _cbor_highest_bit, whatever its rendering: any loop (through the generic combinator wloop)
-   whose condition is "number != 0" and whose body is "bit + 1, number / 2" on in-range states computes
-   highest_bit_f; both orders of the state pair are covered.  The side conditions are discharged by the
-   normalise / split / lia automation, so `for` vs `while`, the order of the two updates, `>>= 1` vs `/= 2`
-   do not matter. *)
-Lemma wloop_hb (cond : Z * Z -> bool) (body : Z * Z -> Z * Z) :
-  (forall b n, (n < 2^64)%N -> (b < 2^64)%N -> cond (Z.of_N b, Z.of_N n) = negb (n =? 0)%N) ->
-  (forall b n, (n < 2^64)%N -> (b + 1 < 2^64)%N -> n <> 0%N -> body (Z.of_N b, Z.of_N n) = (Z.of_N (b + 1), Z.of_N (n / 2))) ->
-  forall fuel n b, (n < 2^64)%N -> (b + N.of_nat fuel < 2^64)%N ->
-  fst (wloop fuel cond body (Z.of_N b, Z.of_N n)) = Z.of_N (highest_bit_f fuel n b).
+(* the loop of _cbor_highest_bit, whatever its rendering: any loop (through the generic combinator wloop), over
+   any state type, with two projections `bit` and `number` such that the condition is "number != 0" and the
+   body maps them to "bit + 1, number / 2" on in-range states computes highest_bit_f.  The projections are
+   found by trying the components of the state tuple; the side conditions are discharged by the normalise /
+   split / lia automation, so `for` vs `while`, the order of the updates, `>>= 1` vs `/= 2`, renamed or
+   additional loop-carried locals do not matter. *)
+Lemma wloop_hb_gen {S : Type} (pb pn : S -> Z) (cond : S -> bool) (body : S -> S) :
+  (forall s b n, pb s = Z.of_N b -> pn s = Z.of_N n -> (n < 2^64)%N -> (b < 2^64)%N -> cond s = negb (n =? 0)%N) ->
+  (forall s b n, pb s = Z.of_N b -> pn s = Z.of_N n -> (n < 2^64)%N -> (b + 1 < 2^64)%N -> n <> 0%N ->
+     pb (body s) = Z.of_N (b + 1) /\ pn (body s) = Z.of_N (n / 2)) ->
+  forall fuel s b n, pb s = Z.of_N b -> pn s = Z.of_N n -> (n < 2^64)%N -> (b + N.of_nat fuel < 2^64)%N ->
+  pb (wloop fuel cond body s) = Z.of_N (highest_bit_f fuel n b).
 Proof.
-  intros Hc Hb. induction fuel as [|f IH]; intros n b Hn Hf; [reflexivity|].
-  cbn [wloop highest_bit_f]. rewrite Hc by lia. destruct (N.eqb_spec n 0) as [->|Hne]; cbn [negb]; [reflexivity|].
-  rewrite Hb by lia. apply IH; [|lia]. pows. apply N.div_lt_upper_bound; lia.
-Qed.
-Lemma wloop_hb_swapped (cond : Z * Z -> bool) (body : Z * Z -> Z * Z) :
-  (forall b n, (n < 2^64)%N -> (b < 2^64)%N -> cond (Z.of_N n, Z.of_N b) = negb (n =? 0)%N) ->
-  (forall b n, (n < 2^64)%N -> (b + 1 < 2^64)%N -> n <> 0%N -> body (Z.of_N n, Z.of_N b) = (Z.of_N (n / 2), Z.of_N (b + 1))) ->
-  forall fuel n b, (n < 2^64)%N -> (b + N.of_nat fuel < 2^64)%N ->
-  snd (wloop fuel cond body (Z.of_N n, Z.of_N b)) = Z.of_N (highest_bit_f fuel n b).
-Proof.
-  intros Hc Hb. induction fuel as [|f IH]; intros n b Hn Hf; [reflexivity|].
-  cbn [wloop highest_bit_f]. rewrite Hc by lia. destruct (N.eqb_spec n 0) as [->|Hne]; cbn [negb]; [reflexivity|].
-  rewrite Hb by lia. apply IH; [|lia]. pows. apply N.div_lt_upper_bound; lia.
+  intros Hc Hb. induction fuel as [|f IH]; intros s b n Eb En Hn Hf; [exact Eb|].
+  cbn [wloop highest_bit_f]. rewrite (Hc s b n Eb En Hn) by lia.
+  destruct (N.eqb_spec n 0) as [->|Hne]; cbn [negb]; [exact Eb|].
+  destruct (Hb s b n Eb En Hn ltac:(lia) Hne) as [Eb' En'].
+  apply IH; [exact Eb'|exact En'| |lia]. pows. apply N.div_lt_upper_bound; lia.
 Qed.
 
-Ltac hb_side := intros; cbv beta iota zeta; repeat f_equal; bridge.
+Ltac hb_side :=
+  let s := fresh "s" in let Eb := fresh "Eb" in let En := fresh "En" in
+  intros s ? ? Eb En; intros; destruct_pairs; cbn [fst snd] in Eb, En; subst;
+  cbv beta iota zeta; cbn [fst snd]; try split; bridge.
 Lemma bridge_highest_bit n : (n < 2^64)%N -> g_cbor_highest_bit (Z.of_N n) = Z.of_N (highest_bit 64 n).
 Proof.
   intros Hn.
@@ -41,16 +38,17 @@ Proof.
   | true =>
     unfold g_cbor_highest_bit, highest_bit; cbv zeta; change (S (N.to_nat 64)) with 65%nat;
     lazymatch goal with
-    | |- context [wloop ?fuel ?C ?B (?x, ?y)] =>
-        first
-        [ (* state (bit, number) *)
-          pose proof (wloop_hb C B ltac:(hb_side) ltac:(hb_side) fuel n 0%N Hn ltac:(pows; lia)) as H;
-          change (wloop fuel C B (Z.of_N 0, Z.of_N n)) with (wloop fuel C B (x, y)) in H;
-          destruct (wloop fuel C B (x, y)) as [r1 r2]; cbn [fst] in H; subst r1; solve [bridge]
-        | (* state (number, bit) *)
-          pose proof (wloop_hb_swapped C B ltac:(hb_side) ltac:(hb_side) fuel n 0%N Hn ltac:(pows; lia)) as H;
-          change (wloop fuel C B (Z.of_N n, Z.of_N 0)) with (wloop fuel C B (x, y)) in H;
-          destruct (wloop fuel C B (x, y)) as [r1 r2]; cbn [snd] in H; subst r2; solve [bridge] ]
+    | |- context [@wloop ?T ?fuel ?C ?B ?init] =>
+        let k := tuple_arity T in
+        upto k ltac:(fun ib => upto k ltac:(fun inn =>
+          neq_nat ib inn;
+          let pb := tuple_proj T k ib in let pn := tuple_proj T k inn in
+          let H := fresh "H" in
+          pose proof (wloop_hb_gen pb pn C B ltac:(hb_side) ltac:(hb_side) fuel init 0%N n
+                        ltac:(cbn [fst snd]; norm; lia) ltac:(cbn [fst snd]; norm; lia) Hn ltac:(pows; lia)) as H;
+          let W := fresh "W" in
+          remember (wloop fuel C B init) as W eqn:EW; clear EW; destruct_pairs;
+          cbv beta in H; cbn [fst snd] in H; cbv beta iota zeta; subst; solve [bridge]))
     end
   end.
 Qed.
@@ -89,6 +87,8 @@ Proof.
   intros Ha Hb.
   first [ unfold g_cbor_safe_signaling_add, safe_signaling_add; cbv zeta;
           rewrite ?bridge_safe_to_add by assumption; destruct (safe_to_add 64 a b); solve [bridge]
+        | (* the guard is inlined / re-derived (e.g. `b > SIZE_MAX - a`): compare the arithmetic directly *)
+          unfold g_cbor_safe_signaling_add, g_cbor_safe_to_add, safe_signaling_add, safe_to_add; cbv zeta; solve [bridge]
         | unfold g_cbor_safe_signaling_add, fb_cbor_safe_signaling_add; rewrite !N2Z.id; reflexivity ].
 Qed.
 
